@@ -144,9 +144,9 @@ var props = []Prop{
 	},
 	{
 		ID: "C18",
-		Harnesses: append(hs("generic", false, 2, "HC18_Arity1", "HC18_Arity2", "HC18_Arity3", "HC18_Arity4", "HC18_Arity5", "HC18_Arity6", "HC18_Arity7", "HC18_Arity8", "HC18_Arity9", "HC18_Arity10", "HC18_Arity11", "HC18_Arity12", "HC18_MapExchange", "HC18_RelArity1", "HC18_RelArity2", "HC18_RelArity3", "HC18_RelArity4", "HC18_RelArity5", "HC18_RelArity6", "HC18_RelArity7", "HC18_RelArity8", "HC18_RelArity9", "HC18_RelArity10", "HC18_RelArity11", "HC18_RelArity12"), H{Pkg: "generic", Fn: "HC18_TwoQueries", W: 2, NoSample: true}, H{Pkg: "generic", Fn: "HC18_Builders"}, H{Pkg: "generic", Fn: "HC18_Builders", Tags: "tiny", Tier: "thorough"}, H{Pkg: "generic", Fn: "HC18_Arity12", Tags: "tiny", W: 2}),
+		Harnesses: append(hs("generic", false, 2, "HC18_Arity1", "HC18_Arity2", "HC18_Arity3", "HC18_Arity4", "HC18_Arity5", "HC18_Arity6", "HC18_Arity7", "HC18_Arity8", "HC18_Arity9", "HC18_Arity10", "HC18_Arity11", "HC18_Arity12", "HC18_MapExchange", "HC18_RelArity1", "HC18_RelArity2", "HC18_RelArity3", "HC18_RelArity4", "HC18_RelArity5", "HC18_RelArity6", "HC18_RelArity7", "HC18_RelArity8", "HC18_RelArity9", "HC18_RelArity10", "HC18_RelArity11", "HC18_RelArity12", "HC18_Exchange"), H{Pkg: "generic", Fn: "HC18_TwoQueries", W: 2, NoSample: true}, H{Pkg: "generic", Fn: "HC18_Builders"}, H{Pkg: "generic", Fn: "HC18_Builders", Tags: "tiny", Tier: "thorough"}, H{Pkg: "generic", Fn: "HC18_Arity12", Tags: "tiny", W: 2}),
 		Conform: stdConform,
-		Bounds:  "every arity 1..12 (harnesses generated from one template like the library): MapN.New / NewWith (symbolic values) / Assign / Add / Remove / NewBatch / NewBatchQ / AddBatchQ / RemoveBatch and FilterN.Query (unregistered and registered) - every Get position is compared by pointer identity with World.Get of the declared component, selections with the equivalent core filter; Optional at a symbolically chosen position (nil for the absent component); component ids offset by 0 / 14 / 60 fillers (chunk and word boundaries); builder sequences: 3 (thorough 4) symbolic steps out of With / Without / Optional / Exclusive / WithRelation (open or fixed target) / use (with or without runtime target) / register-unregister on Filter0, Filter1, Filter2 followed by a final use, against a set-theoretic model of the configuration at query time on a 9-entity world; Map[T], relation-aware Map2 and Exchange against the core calls; every arity 1..12 again with a relation component as first type parameter: New / NewBatch / NewBatchQ / Add / AddBatch / AddBatchQ with target (Query.Relation and Relations.Get agree), Remove, RemoveEntities(exclusive or not) counts; two simultaneously open queries with different runtime targets (known finding)",
+		Bounds:  "every arity 1..12 (harnesses generated from one template like the library): MapN.New / NewWith (symbolic values) / Assign / Add / Remove / NewBatch / NewBatchQ / AddBatchQ / RemoveBatch and FilterN.Query (unregistered and registered) - every Get position is compared by pointer identity with World.Get of the declared component, selections with the equivalent core filter; Optional at a symbolically chosen position (nil for the absent component); component ids offset by 0 / 14 / 60 fillers (chunk and word boundaries); builder sequences: 3 (thorough 4) symbolic steps out of With / Without / Optional / Exclusive / WithRelation (open or fixed target) / use (with or without runtime target) / register-unregister on Filter0, Filter1, Filter2 followed by a final use, against a set-theoretic model of the configuration at query time on a 9-entity world; Map[T], relation-aware Map2 and Exchange against the core calls; every arity 1..12 again with a relation component as first type parameter: New / NewBatch / NewBatchQ / Add / AddBatch / AddBatchQ with target (Query.Relation and Relations.Get agree), Remove, RemoveEntities(exclusive or not) counts, FilterN with Without / Exclusive and a runtime or fixed target; every method of generic.Exchange with and without target; two simultaneously open queries with different runtime targets (known finding)",
 		Outside: "arity 0 beyond Filter0/Query0 in the builder harness; builder sequences longer than 4 steps; generic.Resource is decided in C20",
 	},
 	{
